@@ -2,6 +2,7 @@ import RosuModel.Lemmas.GradualOsu
 import RosuModel.Lemmas.GradualCatch
 import RosuModel.Lemmas.GradualMania
 import RosuModel.Lemmas.GradualTaiko
+import RosuModel.Lemmas.GradualTaikoNth
 
 /-!
 # C15 — gradual calculators obey the iterator protocol
@@ -362,6 +363,128 @@ theorem taiko_exhausted_stays_none_partial (sk : Skills S) (rest : List Bool) (g
     rw [hitsIn_cons, hitsIn_cons]; simp; omega
   show csub (objs.filter id).length g.idx = some 0
   rw [hH, hidx]; simp [csub]
+
+/-! ### taiko, regular maps: arbitrary operation sequences including `nth`
+
+`TaikoSt sk rest g i` (`Lemmas/GradualTaikoNth.lean`): `g` is the state after `i` values — the
+regular state `TaikoReg` (for `i = 0, 1` no difficulty object has been consumed yet: these are the
+states in which `nth` takes its `(take, idx)` fast paths `(1, 0)`, `(_, 0)`, `(_, 1)`), or, for
+`i =` number of hits, the drained state left by an exhausted `next`/`nth`. -/
+
+/-- Every state reachable by `next` / `nth k` (any `k`) / `len` on a regular map is one of these
+states: `idx` never exceeds the number of hits. -/
+theorem taiko_reachable_partial (sk : Skills S) (rest : List Bool) (hne : rest ≠ []) (ops : List Op) :
+    let objs := true :: true :: rest
+    ∃ i, TaikoSt sk rest ((taikoMachine sk objs).exec (taikoNew sk objs) ops) i := by
+  intro objs
+  suffices h : ∀ (g : TaikoGrad S) (i : Nat), TaikoSt sk rest g i →
+      ∃ j, TaikoSt sk rest ((taikoMachine sk objs).exec g ops) j from
+    h _ 0 (Or.inl (taikoNew_reg sk rest))
+  induction ops with
+  | nil => intro g i hs; exact ⟨i, hs⟩
+  | cons op ops ih =>
+    intro g i hs
+    cases op with
+    | next =>
+      show ∃ j, TaikoSt sk rest ((taikoMachine sk objs).exec (taikoNext sk objs g).2 ops) j
+      rcases hs with hc | ⟨he, hd⟩
+      · have hle := hc.le
+        rcases Nat.lt_or_ge i (2 + hitsIn rest) with hlt | hge
+        · exact ih _ (i + 1) (Or.inl ((taikoNext_reg sk rest hne g i hc).1 hlt).2)
+        · have heq : i = 2 + hitsIn rest := by omega
+          exact ih _ i (Or.inr ⟨heq, ((taikoNext_reg sk rest hne g i hc).2 heq).2⟩)
+      · rw [taikoNext_drained sk rest g hd]
+        exact ih g i (Or.inr ⟨he, hd⟩)
+    | nth k =>
+      show ∃ j, TaikoSt sk rest ((taikoMachine sk objs).exec (taikoNth sk objs g k false).2 ops) j
+      rcases hs with hc | ⟨he, hd⟩
+      · have hle := hc.le
+        rcases Nat.lt_or_ge i (2 + hitsIn rest) with hlt | hge
+        · exact ih _ _ (Or.inl ((taikoNth_reg sk rest hne g i k false hc).1 hlt).2)
+        · have heq : i = 2 + hitsIn rest := by omega
+          exact ih _ i (Or.inr ⟨heq, ((taikoNth_reg sk rest hne g i k false hc).2 heq).2⟩)
+      · rw [taikoNth_drained sk rest g k false hd]
+        exact ih g i (Or.inr ⟨he, hd⟩)
+    | len => exact ih g i hs
+
+/-- In every such state `len()` is the number of values still to come (no underflow). -/
+theorem taiko_len_eq_remaining_st_partial (sk : Skills S) (rest : List Bool) (g : TaikoGrad S) (i : Nat)
+    (hs : TaikoSt sk rest g i) :
+    (taikoMachine sk (true :: true :: rest)).len g = some (2 + hitsIn rest - i) :=
+  taikoLen_st sk rest g i hs
+
+/-- What `nth` does on a regular map (both build profiles): it consumes `min (k+1) remaining`
+hits and returns the last of them — through whichever of the fast paths applies — and lands in
+the regular state with that index; `None` iff nothing remains, and then (and from the drained
+state) nothing but the iterator position changes. -/
+theorem taiko_nth_processes_min_partial (sk : Skills S) (rest : List Bool) (hne : rest ≠ [])
+    (g : TaikoGrad S) (i k : Nat) (checked : Bool) (hc : TaikoReg sk rest g i) :
+    let objs := true :: true :: rest
+    let H := 2 + hitsIn rest
+    (i < H →
+      (taikoNth sk objs g k checked).1 = .some (taikoValue sk rest (i + min (k + 1) (H - i))) ∧
+      TaikoReg sk rest (taikoNth sk objs g k checked).2 (i + min (k + 1) (H - i))) ∧
+    (i = H → (taikoNth sk objs g k checked).1 = .none ∧
+      TaikoDrained sk rest (taikoNth sk objs g k checked).2) ∧
+    (∀ g', TaikoDrained sk rest g' → taikoNth sk objs g' k checked = (.none, g')) :=
+  ⟨(taikoNth_reg sk rest hne g i k checked hc).1, (taikoNth_reg sk rest hne g i k checked hc).2,
+    fun g' hd => taikoNth_drained sk rest g' k checked hd⟩
+
+/-- **Partial** form of the iterator contract for taiko: when at least `k+1` values remain,
+`nth k` is exactly `k+1` calls of `next` (same result, same successor state index). -/
+theorem taiko_nth_eq_iterated_next_partial (sk : Skills S) (rest : List Bool) (hne : rest ≠ [])
+    (g : TaikoGrad S) (i k : Nat) (hc : TaikoReg sk rest g i) (hk : i + k + 1 ≤ 2 + hitsIn rest) :
+    let m := taikoMachine sk (true :: true :: rest)
+    some (m.nth g k).1 = (m.nexts g (k + 1)).1.getLast? ∧
+    TaikoReg sk rest (m.nth g k).2 (i + k + 1) ∧ TaikoReg sk rest (m.nexts g (k + 1)).2 (i + k + 1) := by
+  intro m
+  have hlt : i < 2 + hitsIn rest := by omega
+  obtain ⟨hv, hcn⟩ := (taikoNth_reg sk rest hne g i k false hc).1 hlt
+  have e : i + min (k + 1) (2 + hitsIn rest - i) = i + k + 1 := by omega
+  rw [e] at hv hcn
+  obtain ⟨hvs, hcs⟩ := taiko_nexts_reg sk rest hne (k + 1) g i hc (by omega)
+  refine ⟨?_, hcn, by simpa [Nat.add_assoc] using hcs⟩
+  show some (taikoNth sk (true :: true :: rest) g k false).1 = _
+  rw [hv, hvs, List.range_succ]
+  simp
+
+/-- On a regular map no operation sequence makes `nth`, `next` or `len` hit the unchecked
+subtraction `total_hits - idx` (in a build with overflow checks: no panic; in the release profile:
+no wrap-around — both profiles give the same results). -/
+theorem taiko_never_panics_partial (sk : Skills S) (rest : List Bool) (hne : rest ≠ [])
+    (ops : List Op) (k : Nat) (checked : Bool) :
+    let objs := true :: true :: rest
+    let g := (taikoMachine sk objs).exec (taikoNew sk objs) ops
+    (taikoNth sk objs g k checked).1 ≠ .panic ∧ (taikoMachine sk objs).len g ≠ none ∧
+      taikoNth sk objs g k true = taikoNth sk objs g k false := by
+  intro objs g
+  obtain ⟨i, hs⟩ := taiko_reachable_partial sk rest hne ops
+  refine ⟨?_, by rw [taiko_len_eq_remaining_st_partial sk rest g i hs]; simp, ?_⟩
+  · rcases hs with hc | ⟨he, hd⟩
+    · rcases Nat.lt_or_ge i (2 + hitsIn rest) with hlt | hge
+      · rw [((taikoNth_reg sk rest hne g i k checked hc).1 hlt).1]; simp
+      · have heq : i = 2 + hitsIn rest := by have := hc.le; omega
+        rw [((taikoNth_reg sk rest hne g i k checked hc).2 heq).1]; simp
+    · rw [taikoNth_drained sk rest g k checked hd]; simp
+  · have hidx : g.idx = i ∧ i ≤ 2 + hitsIn rest := by
+      rcases hs with hc | ⟨he, hd⟩
+      · exact ⟨hc.idx, hc.le⟩
+      · exact ⟨by rw [hd.idx, he], by omega⟩
+    rw [taikoNth_eq, taikoNth_eq, taikoLenSel rest g i hidx.1 hidx.2 true,
+      taikoLenSel rest g i hidx.1 hidx.2 false]
+
+/-- Non-vacuity: `[hit, hit, roll, hit, hit, roll]`; `nth 1` from the start takes the `(1, 0)`
+fast path and reports the 2nd hit, `nth 5` then clamps to the last (4th) hit having processed
+three difficulty objects, a further `nth 0` returns `None` and drains the trailing drum roll. -/
+example :
+    let objs := [true, true, false, true, true, false]
+    let m := taikoMachine listSkills objs
+    let g0 := taikoNew listSkills objs
+    (m.nth g0 1).1 = .some (2, []) ∧ (m.nth (m.nth g0 1).2 5).1 = .some (4, [0, 1, 2]) ∧
+    (m.nth (m.nth (m.nth g0 1).2 5).2 0).1 = .none ∧
+    m.len (m.nth (m.nth (m.nth g0 1).2 5).2 0).2 = some 0 ∧
+    (m.nth g0 2).1 = .some (3, [0, 1]) ∧ (m.nth (m.next g0).2 7).1 = .some (4, [0, 1, 2]) := by
+  decide
 
 /-- Non-vacuity: a concrete three-object map, after `next; nth 0`, is in the canonical state 2. -/
 example :
